@@ -2,7 +2,7 @@
     Property theorems only, about the definitions REGENERATED from
     ibicus/utils/_running_window_mode.py (Gen/GenWindows.v). *)
 From Coq Require Import ZArith List Bool Sorted.
-From IV Require Import NP GenWindows C07_proofs Grid Driver Driver_proofs Driver_corollaries YearsDriver_proofs DriverSkip Calendar Calendar_proofs C07_calendar.
+From IV Require Import NP GenWindows C07_proofs Grid Driver Driver_proofs Driver_corollaries YearsDriver_proofs DriverSkip Calendar Calendar_proofs C07_calendar MonthsDriver_proofs.
 Import ListNotations.
 Open Scope Z_scope.
 
@@ -174,3 +174,25 @@ Theorem C07_apply_location_defined_on_real_calendars : forall (V : Type) (L S : 
     forall k, (k < n)%nat -> exists v, nth k out None = Some v.
 Proof. exact apply_location_defined_on_real_calendars. Qed.
 Print Assumptions C07_apply_location_defined_on_real_calendars.
+
+(** beyond the running-window modes: ISIMIP's month mode (running_window_mode = False; Model/Driver.v
+    months_driver, correspondence K20).  For ANY assignment of months 1..12 to the time steps (any calendar,
+    storage order, months missing) and any step pipeline returning one value per cm_future value of the month,
+    the loop succeeds and every time step receives a value ... *)
+Theorem C07_isimip_month_mode_defined_everywhere : forall (T V : Type) (mo mh mf : list Z) (obs hist fut : list T)
+    (W : list T -> list T -> list T -> list V),
+  length fut = length mf -> (forall o h f, length (W o h f) = length f) -> (forall m, In m mf -> 1 <= m <= 12) ->
+  exists out, months_driver V mo mh mf obs hist fut W = Some out /\ length out = length mf /\
+    forall k, (k < length mf)%nat -> exists v, nth k out None = Some v.
+Proof. exact months_driver_defined_everywhere. Qed.
+Print Assumptions C07_isimip_month_mode_defined_everywhere.
+
+(** ... and on the calendar of the time helpers the hypothesis on the months is discharged *)
+Theorem C07_isimip_month_mode_defined_on_real_calendars : forall (T V : Type) (n : nat) (y m d : Z) (mo mh : list Z)
+    (obs hist fut : list T) (W : list T -> list T -> list T -> list V),
+  length fut = n -> (forall o h f, length (W o h f) = length f) ->
+  let mf := months_of (consecutive_dates n y m d) in
+  exists out, months_driver V mo mh mf obs hist fut W = Some out /\ length out = n /\
+    forall k, (k < n)%nat -> exists v, nth k out None = Some v.
+Proof. exact isimip_month_mode_defined_on_real_calendars. Qed.
+Print Assumptions C07_isimip_month_mode_defined_on_real_calendars.
